@@ -628,8 +628,9 @@ class Parser:
                 flags |= self.RE_FLAG_MAP[flag]
         try:
             return RegexLiteral(value=re.compile(pattern, flags))
-        except (re.error, OverflowError) as err:
-            # OverflowError for a repetition count that is too large
+        except (re.error, OverflowError, ValueError) as err:
+            # OverflowError for a repetition count that is too large and
+            # ValueError for incompatible flags
             raise JSONPathSyntaxError(
                 f"invalid regular expression, {err}", token=stream.current
             ) from err
